@@ -520,7 +520,8 @@ class Expander:
         if it.ti_open is None:
             raise LostAnchor("%s: struct %s has no named fields" % (rel, it.name))
         for at, s, e in it.attrs:
-            new, log = filter_attr(at, override if rlex.norm(at).startswith("#[derive") else None)
+            # a projected struct keeps no derives unless the unit lists them (field types are stand-ins)
+            new, log = filter_attr(at, (override or []) if rlex.norm(at).startswith("#[derive") else None)
             self.out.add(new + "\n", ("rewrite", rel, s))
         self.emit_repo(rel, src, it.kw_start, toks[it.ti_open].end)
         self.out.add("\n", ("tmpl", it.name))
@@ -544,8 +545,8 @@ class Expander:
                     name = toks[j].text
                     if name in fields:
                         found.add(name)
-                        self.out.add("    ", ("tmpl", it.name))
-                        self.emit_repo(rel, src, toks[start].start, toks[k - 1].end)
+                        self.out.add("    pub ", ("tmpl", it.name))
+                        self.emit_repo(rel, src, toks[j].start, toks[k - 1].end)
                         self.out.add(",\n", ("tmpl", it.name))
                     else:
                         dropped.append(name)
@@ -587,6 +588,8 @@ class Expander:
                 spec["bodysubs"].append((a.strip(), b.strip(), k.endswith("?")))
             elif k == "desugar_try":
                 spec["desugar_try"] = True
+            elif k == "desugar_for":
+                spec["desugar_for"] = True
             elif k == "loop":
                 n = int(w[1])
                 d = spec["loops"].setdefault(n, {})
@@ -669,6 +672,20 @@ class Expander:
         if spec["head"]:
             self.out.add("\n" + spec["head"] + "\n", ("tmpl", fnid, "head"))
         for n, (kw, bo) in enumerate(loops, 1):
+            if spec.get("desugar_for") and toks[kw].text == "for":
+                # rustc's desugaring of `for PAT in EXPR BODY` (with the stand-in iterator's inherent `next`):
+                #   let mut it = EXPR; while let Some(PAT) = it.next() BODY
+                m = kw + 1
+                while toks[m].text != "in":
+                    if toks[m].kind == "punct" and toks[m].text in rlex.OPEN:
+                        m = rlex.match_close(toks, m)
+                    m += 1
+                pat = src[toks[kw].end:toks[m].start].strip()
+                expr = src[toks[m].end:toks[bo].start].strip()
+                self.emit_repo(rel, src, pos, toks[kw].start)
+                self.out.add("let mut __vx_it%d = %s; while let Some(%s) = __vx_it%d.next() " % (n, expr, pat, n), ("rewrite", rel, toks[kw].start))
+                self.rewrites.append("%s: `for %s in ..` in %s desugared to `let mut it = ..; while let Some(..) = it.next()`" % (rel, pat, fnid))
+                pos = toks[bo].start
             if n in spec["loops"]:
                 cut = toks[bo].start
                 self.emit_repo(rel, src, pos, cut)
@@ -678,16 +695,6 @@ class Expander:
                         ncl += len(spec["loops"][n][kwd])
                 pos = cut
         self.emit_repo(rel, src, pos, it.end)
-        if spec.get("desugar_try"):
-            cnt = 0
-            for sg in self.out.segs[body_seg0:]:
-                if sg.origin[0] == "repo" and "?" in sg.text:
-                    try:
-                        sg.text, n = desugar_try(sg.text)
-                    except ValueError as e:
-                        raise LostAnchor("%s: cannot desugar `?` in %s: %s" % (rel, fnid, e))
-                    cnt += n
-            self.rewrites.append("%s: %d `?` in %s desugared to match/return Err(From::from(e)) (rustc's own desugaring for Result)" % (rel, cnt, fnid))
         if spec["bodysubs"]:
             for a, b, optional in spec["bodysubs"]:
                 hit = 0
@@ -700,6 +707,16 @@ class Expander:
                 if not hit:
                     raise LostAnchor("%s: body rewrite %r does not match in %s" % (rel, a, fnid))
                 self.rewrites.append("%s: body of %s rewritten /%s/ => %s (%d site%s)" % (rel, fnid, a, b, hit, "" if hit == 1 else "s"))
+        if spec.get("desugar_try"):
+            cnt = 0
+            for sg in self.out.segs[body_seg0:]:
+                if sg.origin[0] == "repo" and "?" in sg.text:
+                    try:
+                        sg.text, n = desugar_try(sg.text)
+                    except ValueError as e:
+                        raise LostAnchor("%s: cannot desugar `?` in %s: %s" % (rel, fnid, e))
+                    cnt += n
+            self.rewrites.append("%s: %d `?` in %s desugared to match/return Err(From::from(e)) (rustc's own desugaring for Result)" % (rel, cnt, fnid))
         self.out.add("\n\n", ("tmpl", fnid))
         self.fns.append({"id": fnid, "file": rel, "line": line, "body": True, "requires": len(spec["requires"]), "ensures": len(spec["ensures"]), "clauses": ncl, "loops": len(loops)})
 
